@@ -3,42 +3,42 @@
    grammar + RustGenerator rule by rule; [compile] adds the #define/#ifdef gating of the
    preprocessor); pest parsing of the text and rustc ("the generated code compiles") are outside.
    [shape_of_defs] is the structure the IDL declares, [shape_of_items] the structure of the
-   generated items as #[derive(DdsType)] reads them (first #[dust_dds] attribute only).
+   generated items as #[derive(DdsType)] reads them (all #[dust_dds] attributes, a later
+   argument overwriting an earlier one; fix 99bf327).
    Property file: statements, `exact`, assumptions. *)
 From DustDDS Require Import Base.Machine Lang.IdlModel Lang.IdlProofs.
 Open Scope string_scope.
 Open Scope list_scope.
 
-(* ---- the property, for all specifications of the supported subset outside the three recorded
-   classes (1 bounded string/sequence, 3 array with several dimensions, 4 several #[dust_dds]
-   attributes on one item; class 2, annotated member with several declarators, was fixed in /repo
-   by 7270bfe and is retired) *)
+(* ---- the property, for all specifications of the supported subset outside the two recorded
+   classes (1 bounded string/sequence, 3 array with several dimensions; class 2, annotated member
+   with several declarators, was fixed in /repo by 7270bfe and class 4, several #[dust_dds]
+   attributes on one item, by 99bf327: both are retired) *)
 Theorem C41_idl_structure_preserved :
   forall defs,
     supported defs = true ->
     known_bounds defs = false ->
-    known_multi_dim defs = false -> known_split defs = false ->
+    known_multi_dim defs = false ->
     exists items, compile_defs defs = Ok items /\ shape_of_items 0 items = shape_of_defs [] defs.
 Proof. exact idl_structure_preserved. Qed.
 
 (* ---- for ALL supported specifications: the structure is preserved up to exactly what the
-   classes present in the declaration lose (eb: bounds, ed: array dimensions after the first,
-   ea: what lives in attributes) *)
+   classes present in the declaration lose (eb: bounds, ed: array dimensions after the first;
+   ea, forgetting what lives in attributes, is no longer needed by any class) *)
 Theorem C41_structure_preserved_upto_classes :
   forall eb ed ea defs items,
     supported defs = true ->
     (known_bounds defs = true -> eb = true) ->
     (known_multi_dim defs = true -> ed = true) ->
-    (known_split defs = true -> ea = true) ->
     compile_defs defs = Ok items ->
     map (ev_erase eb ed ea) (shape_of_items 0 items) = map (ev_erase eb ed ea) (shape_of_defs [] defs).
 Proof. exact structure_preserved_upto_classes. Qed.
 
-(* bounds are the only loss when classes 3 and 4 are absent (D34) *)
+(* bounds are the only loss when class 3 is absent (D34) *)
 Theorem C41_everything_but_bounds_preserved :
   forall defs items,
     supported defs = true ->
-    known_multi_dim defs = false -> known_split defs = false ->
+    known_multi_dim defs = false ->
     compile_defs defs = Ok items ->
     map (ev_erase true false false) (shape_of_items 0 items)
     = map (ev_erase true false false) (shape_of_defs [] defs).
@@ -78,34 +78,29 @@ Theorem C41_union_labels_preserved :
 Proof. exact union_labels_preserved. Qed.
 
 (* member order, keys, member ids, optional members, extensibility / base type / qualified
-   name, enum bit bound: whenever class 4 is absent (bounds and dimensions irrelevant) *)
+   name, enum bit bound: for EVERY supported specification (bounds and dimensions irrelevant) *)
 Theorem C41_member_order_preserved :
   forall defs items, supported defs = true -> compile_defs defs = Ok items ->
-    known_split defs = false ->
     members_of (shape_of_items 0 items) = members_of (shape_of_defs [] defs).
 Proof. exact members_preserved. Qed.
 
 Theorem C41_keys_preserved :
   forall defs items, supported defs = true -> compile_defs defs = Ok items ->
-    known_split defs = false ->
     keys_of (shape_of_items 0 items) = keys_of (shape_of_defs [] defs).
 Proof. exact keys_preserved. Qed.
 
 Theorem C41_member_ids_preserved :
   forall defs items, supported defs = true -> compile_defs defs = Ok items ->
-    known_split defs = false ->
     ids_of (shape_of_items 0 items) = ids_of (shape_of_defs [] defs).
 Proof. exact ids_preserved. Qed.
 
 Theorem C41_optionals_preserved :
   forall defs items, supported defs = true -> compile_defs defs = Ok items ->
-    known_split defs = false ->
     optionals_of (shape_of_items 0 items) = optionals_of (shape_of_defs [] defs).
 Proof. exact optionals_preserved. Qed.
 
 Theorem C41_extensibility_base_name_preserved :
   forall defs items, supported defs = true -> compile_defs defs = Ok items ->
-    known_split defs = false ->
     struct_headers_of (shape_of_items 0 items) = struct_headers_of (shape_of_defs [] defs)
     /\ enums_of (shape_of_items 0 items) = enums_of (shape_of_defs [] defs).
 Proof. exact headers_preserved. Qed.
@@ -120,13 +115,13 @@ Theorem C41_unions_aliases_consts_preserved :
     /\ consts_of (shape_of_items 0 items) = consts_of (shape_of_defs [] defs).
 Proof. exact unions_aliases_consts_preserved. Qed.
 
-(* ---- the three remaining classes are genuine: in each there is a supported specification, in no other
+(* ---- the two remaining classes are genuine: in each there is a supported specification, in no other
    class, on which the clause named is violated (recorded findings C41-bounds-dropped,
-   C41-array-dimensions-dropped, C41-split-attributes) *)
+   C41-array-dimensions-dropped) *)
 Theorem C41_bounds_clause_refuted :
   exists defs items,
     (supported defs = true /\ known_bounds defs = true
-     /\ known_multi_dim defs = false /\ known_split defs = false)
+     /\ known_multi_dim defs = false)
     /\ compile_defs defs = Ok items
     /\ member_kinds_of (shape_of_items 0 items) <> member_kinds_of (shape_of_defs [] defs).
 Proof. exact bounds_refuted. Qed.
@@ -136,7 +131,7 @@ Proof. exact bounds_refuted. Qed.
 Theorem C41_annotations_reach_every_declarator :
   exists items,
     (supported w_multi_annot = true /\ known_bounds w_multi_annot = false
-     /\ known_multi_dim w_multi_annot = false /\ known_split w_multi_annot = false)
+     /\ known_multi_dim w_multi_annot = false)
     /\ compile_defs w_multi_annot = Ok items
     /\ keys_of (shape_of_items 0 items) = [("S", ["a"; "b"])]
     /\ shape_of_items 0 items = shape_of_defs [] w_multi_annot.
@@ -145,19 +140,23 @@ Proof. exact multi_declarator_annotations_preserved. Qed.
 Theorem C41_kinds_refuted_for_multi_dim_array :
   exists defs items,
     (supported defs = true /\ known_bounds defs = false
-     /\ known_multi_dim defs = true /\ known_split defs = false)
+     /\ known_multi_dim defs = true)
     /\ compile_defs defs = Ok items
     /\ member_kinds_of (shape_of_items 0 items) <> member_kinds_of (shape_of_defs [] defs).
 Proof. exact multi_dim_refuted. Qed.
 
-Theorem C41_keys_and_names_refuted_for_split_attributes :
-  exists defs items,
-    (supported defs = true /\ known_bounds defs = false
-     /\ known_multi_dim defs = false /\ known_split defs = true)
-    /\ compile_defs defs = Ok items
-    /\ keys_of (shape_of_items 0 items) <> keys_of (shape_of_defs [] defs)
-    /\ struct_headers_of (shape_of_items 0 items) <> struct_headers_of (shape_of_defs [] defs).
-Proof. exact split_refuted. Qed.
+(* regression for the retired class 4 (fix 99bf327): in
+   `module M { @mutable struct A { @id(7) @key long y; }; };` the key, the id, the extensibility
+   and the qualified name all reach the type *)
+Theorem C41_all_attributes_are_read :
+  exists items,
+    (supported w_split = true /\ known_bounds w_split = false /\ known_multi_dim w_split = false)
+    /\ compile_defs w_split = Ok items
+    /\ keys_of (shape_of_items 0 items) = [("A", ["y"])]
+    /\ ids_of (shape_of_items 0 items) = [("A", [("y", Some "7")])]
+    /\ struct_headers_of (shape_of_items 0 items) = [("A", (["M"; "A"], Some "mutable", None))]
+    /\ shape_of_items 0 items = shape_of_defs [] w_split.
+Proof. exact split_attributes_preserved. Qed.
 
 (* ---- preprocessor: without directives nothing changes; #ifdef/#ifndef bodies count exactly
    when the flag is (not) defined before them; a file gated out entirely is rejected *)
@@ -204,7 +203,7 @@ Definition C41_example : list def :=
 
 Example C41_nonvacuous :
   supported C41_example = true /\ known_bounds C41_example = false
-  /\ known_multi_dim C41_example = false /\ known_split C41_example = false
+  /\ known_multi_dim C41_example = false
   /\ keys_of (shape_of_defs [] C41_example) = [("Reading", ["sensor"]); ("Leaf", [])]
   /\ ids_of (shape_of_defs [] C41_example)
      = [("Reading", [("sensor", None); ("values", Some "7"); ("note", None); ("raw", None); ("flags", None)]);
@@ -234,7 +233,7 @@ Print Assumptions C41_unions_aliases_consts_preserved.
 Print Assumptions C41_bounds_clause_refuted.
 Print Assumptions C41_annotations_reach_every_declarator.
 Print Assumptions C41_kinds_refuted_for_multi_dim_array.
-Print Assumptions C41_keys_and_names_refuted_for_split_attributes.
+Print Assumptions C41_all_attributes_are_read.
 Print Assumptions C41_preprocess_identity_without_directives.
 Print Assumptions C41_ifdef_gates.
 Print Assumptions C41_all_gated_out_rejected.
